@@ -265,3 +265,75 @@ def c11(pid, tier, replay):
 
 
 REGISTRY["C11"] = c11
+
+
+def c20(pid, tier, replay):
+    scr = vlib.Scratch(pid)
+    out = casecheck.CaseOutcome(pid, tier, ["C20_"])
+    h = scr.build()
+    tab, _ = casecheck.tlc_print(scr, "DiscoveryTrace", "CAPTABLE")
+    tpath = scr.fresh("captable") + ".json"
+    with open(tpath, "w") as f:
+        json.dump(tab, f)
+    maxlen, nrand = (3, 2000) if tier == "quick" else (4, 20000)
+    t = scr.fresh("disc") + ".ndjson"
+    run_cmd([h, "discovery", tpath, str(maxlen), str(nrand), "12", str(vlib.seed()), t])
+    # validate in chunks on several cores
+    chunks = split_ndjson(scr, t, 8 if tier == "quick" else 14)
+    for tf, r in zip(chunks, vlib.validate_traces_parallel(scr, "DiscoveryTrace", chunks, xmx="3g")):
+        out.add(tf, r, sample_filter=lambda d: len(d.get("hs", [])) >= 3)
+    ncl, nloc = len(tab["caps"]), len(tab["locs"])
+    out.notes.append("exhaustive: every sequence of 0..%d handlers over %d capability classes x %d locations "
+                     "(every multiset in every discovery order); seeded: %d multisets of up to 12 handlers in 3 orders each, "
+                     "capability order shuffled" % (maxlen, ncl, nloc, nrand))
+    return out.finish(rule="one case = one call of the real input.Normalize on a synthetic handler list; all cases are judged by "
+                           "Discovery!Judge; distinct_nontrivial = cases with at least two handlers",
+                      distinct=sum(v for k, v in out.classes.items() if k in ("grouped", "singletons", "drift-handler-class")),
+                      exhaustive=True,
+                      assumptions=["handlers cannot be opened in the sandbox (no /dev/input), which is the case the property names: "
+                                   "handlers that cannot be opened are still grouped",
+                                   "the class of a capability set is taken as the code reports it (HandlerType); the statement does "
+                                   "not define which sets are joystick-like"])
+
+
+def split_ndjson(scr, path, n):
+    with open(path) as f:
+        lines = f.readlines()
+    n = max(1, min(n, len(lines) // 500 + 1))
+    size = (len(lines) + n - 1) // n
+    outs = []
+    for i in range(n):
+        part = lines[i * size:(i + 1) * size]
+        if not part:
+            continue
+        p = scr.fresh("chunk") + ".ndjson"
+        with open(p, "w") as f:
+            f.writelines(part)
+        outs.append(p)
+    return outs
+
+
+REGISTRY["C20"] = c20
+
+
+def c12(pid, tier, replay):
+    scr = vlib.Scratch(pid)
+    out = casecheck.CaseOutcome(pid, tier, ["C12_"])
+    h = scr.build()
+    t = scr.fresh("loader") + ".ndjson"
+    mode, n = ("sample", 1500) if tier == "quick" else ("full", 0)
+    run_cmd([h, "loader", mode, str(n), str(vlib.seed()), scr.path("loader-trees"), t], timeout=3000)
+    chunks = split_ndjson(scr, t, 8 if tier == "quick" else 14)
+    for tf, r in zip(chunks, vlib.validate_traces_parallel(scr, "LoaderTrace", chunks, xmx="3g")):
+        out.add(tf, r, sample_filter=lambda d: d.get("junk") != "none")
+    out.notes.append("quick: all 256 presence combinations of the eight candidate files x 4 device types, plus %d seeded cases with "
+                     "junk (broken TOML, non-TOML, nested broken, foreign ids) and missing directories; thorough: the full product "
+                     "256 x 4 types x 6 junk kinds x 7 missing-directory sets" % n)
+    return out.finish(rule="one case = one hidi-config tree built on disk, the real LoadDeviceConfigs + FindConfig run in it, the chosen "
+                           "file identified by a marker; judged by Loader!Judge",
+                      exhaustive=(tier == "thorough"),
+                      assumptions=["unreadable directories cannot be produced as root in this sandbox (permissions are bypassed); "
+                                   "missing directories are"])
+
+
+REGISTRY["C12"] = c12
